@@ -41,8 +41,6 @@ def DataOK (_ : State) : Op → Bool
   | .apply _ fail _ => !fail
   | .flushBegin _ sh => sh == 0
   | .flushEnd _ sh => sh == 0
-  | .restartLate _ => false     -- the start-up replay racing with the commit loop: see `replayRaceRun_stale`
-  | .replayLate _ => false
   | _ => true
 
 variable {s s' : State}
@@ -422,7 +420,7 @@ theorem dataInv_flushBegin {n sh : Nat} (h : DataInv s) (hok : DataOK s (.flushB
       unfold flushBeginNode
       simp only [snapSignalAfterCommit, Bool.not_true, Bool.and_false, Bool.false_eq_true, if_false, hmoved, hrest, himm,
         List.nil_append]
-      cases hsn : x.hasSnp
+      cases hsn : x.hasSnp.contains 0
       · simp only [Bool.false_eq_true, if_false]
         refine ⟨hd.snapF, hd.gFc, hd.filesLe, hd.filesEq, fun _ => ⟨hu.ap, hu.ph, hu.sca, hu.gFa, ?_, ?_, ?_⟩⟩
         · simp only [Node.data, Node.immIdx, List.flatMap_cons, List.flatMap_nil, List.append_nil]
@@ -648,8 +646,8 @@ theorem dataInv_step {o : Op} (hL : LogInv s) (hL' : LogInv s') (h : DataInv s) 
   · exact dataInv_truncBySize h hs
   · exact dataInv_kill h hs
   · exact dataInv_restart hL hL' h hs
-  · simp [DataOK] at hok
-  · simp [DataOK] at hok
+  · simp [doRestartLate, commitLoopAfterReplay] at hs
+  · simp [doReplayLate, commitLoopAfterReplay] at hs
   · exact dataInv_raftLead h hs
   · exact dataInv_metaDown h hs
   · exact dataInv_metaUp h hs
